@@ -10,6 +10,11 @@ from framelint.canon import (canon_function, show, S, to_poly, mk_lt, mk_and, mk
 from framelint.cfg import EXIT, ENTRY
 from .common import (GEOM, ALLOC, NETLIST, MODULE, stmt_calls, exit_facts, facts_text, call_name, norm_stmt,
                      assert_conjuncts, kw_value)
+from framelint.canon import canon_function as _canon_function_expanded
+
+def canon_function(fi, model=None, opts=None):   # rules of this file match shapes: look through every local
+    return _canon_function_expanded(fi, model, opts, expand=True)
+
 
 
 def _ratio_sums(c) -> list:
